@@ -1,6 +1,7 @@
 """C02 — Ordered super-reconciliation returns a minimum-cost labelled reconciliation."""
 from .. import solvers
 from ._solver_check import make
+from . import c02_code
 
 ID = "C02"
 RULE = (
@@ -34,10 +35,24 @@ CORPUS = [
     {"S": [], "O": {"s": "", "f": [0, 1]}},
 ]
 
-corpus, run, shrink, replay = make(
+_corpus, _run, shrink, replay = make(
     ID, ["ext_spfs", "base_spfs"],
     [(lambda ctx, rng: solvers.ordered_case(ctx, rng, 4, 4, 3), 0.8),
      (lambda ctx, rng: solvers.ordered_case(ctx, rng, 3, 3, 4), 0.2)],
     lambda res, r: solvers.judge_optimal(res, r, ID),
     quick=400, thorough=4000, corpus_cases=CORPUS, known_algos=["ext_spfs"],
 )
+
+TRUSTED = TRUSTED + c02_code.TRUSTED
+
+
+def corpus(ctx, res):
+    _corpus(ctx, res)
+    c02_code.corpus_code(ctx, res, CORPUS)
+
+
+def run(ctx, res):
+    _run(ctx, res)
+    # code-structured model (Model/SpfsCode.lean, proved to refine `spfs`): orderings tried, table entries,
+    # values and tags of the real _compute_spfs_table vs the model
+    c02_code.run_code(ctx, res)
